@@ -128,7 +128,7 @@ func (d *Decl) UsesCtx() bool {
 			}
 		}
 	}
-	return d.Target == "ctx" || d.Prelude != ""
+	return d.Target == "ctx" || d.Prelude == "ctx-injector" || d.Prelude == "pkg-ident-ctx"
 }
 
 // EmitBody emits type definitions, provider functions and the Inject declaration (without the
@@ -306,6 +306,10 @@ func (d *Decl) Emit(pkg string) string {
 	switch d.Prelude {
 	case "ctx-injector":
 		sb.WriteString("type X9 struct{ R string }\n\nfunc Pre9(c context.Context) *X9 { return &X9{R: \"pre\"} }\n\nvar _ = kessoku.Inject[*X9](\"Pre\", kessoku.Provide(Pre9))\n\n")
+	case "async-injector":
+		// a complete Async injector earlier in the same file: the allocator has handed out ctx, errgroup's
+		// import name and several variable names before the injector under test is generated
+		sb.WriteString("type X8 struct{ R string }\n\ntype X9 struct{ R string }\n\ntype X7 struct{ R string }\n\nfunc Pre8() *X8 { return &X8{R: \"pre8\"} }\n\nfunc Pre7() *X7 { return &X7{R: \"pre7\"} }\n\nfunc Pre9(a *X8, b *X7) *X9 { return &X9{R: \"pre9\"} }\n\nvar _ = kessoku.Inject[*X9](\"Pre\", kessoku.Async(kessoku.Provide(Pre8)), kessoku.Async(kessoku.Provide(Pre7)), kessoku.Provide(Pre9))\n\n")
 	case "pkg-ident-ctx":
 		sb.WriteString("// a package-level context that happens to be called ctx\nvar ctx = context.Background()\n\n")
 	}
